@@ -346,6 +346,30 @@ theorem C14_dropping_refAdd_captures (ns : List Node) (c : Ctx) (k r : Int) (h :
   have : (find ns r).isSome = true := find_isSome.mpr h
   cases c <;> simp [resolveValT, thr, this]
 
+/-! ### no reader keeps state between references
+
+In the model the resolution of a reference is a function of the manager, the place of the reference and the file's offset
+(`resolveValT T ns ctx k`): nothing is carried from one reference to the next or from one file to the next.  For the code
+this is the regenerated fact that no function of the reference-reading path has a non-const `static` local or uses a
+file-scope mutable static (`Generated.readerState`, tools/extract.d/threading.py). -/
+
+theorem C14_reader_state_free : readerState = [] := rfl
+
+/-- what such state does (seed C14-a1's class): a reader that remembers the last reference by its number as written answers the
+    first reference of an appended file from that memo — the file's offset `k` plays no part, the reference is bound to the
+    instance `t` of the earlier file -/
+theorem C14_memo_reader_ignores_offset (ns : List Node) (k r t : Int) :
+    (resolveRefMemo ns k (some (r, t)) r).1 = some t := by
+  simp [resolveRefMemo]
+
+/-- … whereas without a memo (and the reader of the code has none) the same reference is bound to `r + k` -/
+theorem C14_memoless_reader_uses_offset (ns : List Node) (k r : Int) (h : r + k ∈ ids ns) :
+    (resolveRefMemo ns k none r).1 = some (r + k) ∧ resolveValT allOn ns .top k (.ref r) = (.ref (r + k), true) := by
+  have hf : (find ns (r + k)).isSome = true := find_isSome.mpr h
+  constructor
+  · simp [resolveRefMemo, hf]
+  · simp [resolveValT, thr, allOn, hf]
+
 /-! ### hypotheses are satisfiable; the interesting case (identical ids in both files) is covered -/
 
 def exA : List Inst := [⟨1, [⟨"T0", [.tok "5", .ref 2]⟩], ""⟩, ⟨2, [⟨"T1", [.aggr (.cons (.ref 1) .nil)]⟩], ""⟩]
